@@ -8,6 +8,9 @@ use shuttle::scheduler::{Schedule, Scheduler, Task, TaskId};
 /// consecutive picks of one task (while others could run) before the PCT mode demotes it
 const PCT_FAIRNESS: u32 = 24;
 
+/// panic payload that ends a simulated process (see `next_task`)
+pub struct StopRun;
+
 pub struct SimScheduler {
     started: bool,
 }
@@ -207,7 +210,15 @@ impl Scheduler for SimScheduler {
         });
         match r {
             Some(Some(p)) => Some(TaskId::from(p as usize)),
-            _ => None,
+            _ => {
+                // The simulated process ends here. Ending it by unwinding (rather than by
+                // returning None) makes the engine tear the execution down in its
+                // "panicking" mode, in which suspended tasks are leaked instead of
+                // unwound: no destructor of the simulated program runs after the end of
+                // the process (a destructor that synchronises would otherwise reach the
+                // engine in a state that has nothing left to schedule).
+                std::panic::panic_any(StopRun)
+            }
         }
     }
 
